@@ -241,6 +241,27 @@ theorem C11_types_closure (d : Dict) (rank : Nat → Nat) (h : Ranked d rank) (k
   unfold typesOf
   rw [mem_dedupBy, List.mem_cons, supStar_iff d rank h.sups h.2]
 
+/-- `InitIAttrs` links `INVERSE … FOR a` over `E` to an explicit attribute `a` declared by `E` or by one of its supertypes (at any
+    depth), and finds one whenever there is one -/
+theorem C11_attr_owner (d : Dict) (rank : Nat → Nat) (h : Ranked d rank) (over a : Nat) :
+    (∀ e, attrOwner d over a = some e → SupStar d over e ∧ (attrsOf d e).any (fun p => p.1 == a) = true) ∧
+    ((∃ e, SupStar d over e ∧ (attrsOf d e).any (fun p => p.1 == a) = true) → (attrOwner d over a).isSome = true) := by
+  unfold attrOwner
+  constructor
+  · intro e he
+    have hm := List.mem_of_find?_eq_some he
+    have hp := List.find?_some he
+    refine ⟨(supStar_iff d rank h.sups h.2 over e).mpr ?_, hp⟩
+    rcases List.mem_cons.mp hm with h1 | h1
+    · exact Or.inl h1
+    · exact Or.inr h1
+  · rintro ⟨e, hs, hp⟩
+    rw [List.find?_isSome]
+    refine ⟨e, ?_, hp⟩
+    rcases (supStar_iff d rank h.sups h.2 over e).mp hs with h1 | h1
+    · rw [h1]; simp
+    · exact List.mem_cons_of_mem _ h1
+
 /-- a loaded instance has one attribute per descriptor, for every dictionary whose entities declare each attribute name once -/
 theorem C11_mkInst_unique (d : Dict) (h : AttrNamesUnique d) (p : PInst) : UniqueAttrs (mkInst d p) := by
   unfold mkInst
